@@ -8,8 +8,8 @@
   parameters of the generated definitions: the formula is applied per node, and the theorems
   below say at WHICH node each slice is read.  All equalities hold for every numeric
   instance `[Transc α]`; the proofs are `rfl` or unfolding of `Array.ofFn` at an index.
-  Not tied here (calls the translator rejects): `np.ones(Nz)*LCS_i_r + …` (BETA), `m_ice`
-  (`np.zeros(Nz)*… + …`), `simps(…)`, `np.linspace`; they stay tied by the C08/C13 correspondence.
+  (`BETA`, `m_ice` and the two mask statements of the solidification loop are tied: np.ones/np.zeros = the constant of one node.)  Not tied here (calls the translator rejects):
+  `simps(…)`, `np.linspace`; they stay tied by the C08/C13 correspondence.
   Generated definitions are applied with NAMED arguments (`(x := …)`): swapping two names in the
   source changes the body under fixed binders and breaks the equality as well.
 -/
@@ -198,16 +198,28 @@ theorem m_i_nucl_sol_1 (p : SnowIn α) (T : α) :
 
 /-! ### solidification stage -/
 
-/-- `BETA` of the hand model (the translator rejects the source line: `np.ones`), with the
-generated `beta` inside -/
+/-- the two masks of the solidification loop (`LCS_i = T_k < T_eq_l`, `LCS_i_r = ~LCS_i`) are the hand model's
+`decide (t < T_eq_l)` and its negation -/
+theorem solid_masks (t Tl : α) :
+    F1D.solid_LCS_i (T_k := t) (T_eq_l := Tl) = decide (t < Tl) ∧
+    F1D.solid_LCS_i_r (T_k := t) (T_eq_l := Tl) = !decide (t < Tl) := ⟨rfl, rfl⟩
+
+/-- `BETA` per node: the GENERATED `BETA = np.ones(Nz)*LCS_i_r + (1 + beta/(T_k - T_m)**2)*LCS_i` at the generated
+masks (as the numbers numpy multiplies with) and the generated `beta` -/
 def betaField (p : SnowIn α) (g : Grid1D α) (T cp : Array α) : Array α :=
   Array.ofFn (n := g.Nz) fun j =>
     let t := aget T j.val
-    let beta := F1D.solid_beta (Dh := p.const.Dh) (k_f := p.const.k_f) (mass_solute := p.const.mass_solute)
-        (M_s := p.const.M_s) (rho_l := p.const.rho_l) (V := p.const.V) (cp_solution := (aget cp j.val))
-    let l : α := maskNum (decide (t < p.T_eq_l))
-    let r : α := maskNum (!decide (t < p.T_eq_l))
-    one * r + (one + beta / ((t - p.T_m) * (t - p.T_m))) * l
+    F1D.BETA (LCS_i_r := maskNum (F1D.solid_LCS_i_r (T_k := t) (T_eq_l := p.T_eq_l)))
+      (beta := F1D.solid_beta (Dh := p.const.Dh) (k_f := p.const.k_f) (mass_solute := p.const.mass_solute)
+        (M_s := p.const.M_s) (rho_l := p.const.rho_l) (V := p.const.V) (cp_solution := (aget cp j.val)))
+      (T_k := t) (T_m := p.T_m)
+      (LCS_i := maskNum (F1D.solid_LCS_i (T_k := t) (T_eq_l := p.T_eq_l)))
+
+/-- the hand model's per-node capacitance factor (inside `solidStep1D`) IS the generated `BETA` -/
+theorem BETA (beta t Tm Tl : α) :
+    (one * maskNum (!decide (t < Tl)) + (one + beta / ((t - Tm) * (t - Tm))) * maskNum (decide (t < Tl)) : α) =
+      F1D.BETA (LCS_i_r := maskNum (F1D.solid_LCS_i_r (T_k := t) (T_eq_l := Tl))) (beta := beta) (T_k := t)
+        (T_m := Tm) (LCS_i := maskNum (F1D.solid_LCS_i (T_k := t) (T_eq_l := Tl))) := rfl
 
 /-- the temperature field after one solidification step, written with the GENERATED formulas:
 `cp_solution`, `lambda_eff`, `beta`, the two ghost values and the three stencil pieces, each
@@ -250,13 +262,23 @@ theorem solid_field (p : SnowIn α) (g : Grid1D α) (stride iEnd : Nat) (tNuc : 
     (solidStep1D p g stride iEnd tNuc i s Tshelf).T = solidFieldGen p g tNuc i s Tshelf := rfl
 
 
-/-- `w_i_k = m_ice / mass` per node -/
+/-- `m_ice = np.zeros(Nz)*LCS_i_r + (mass_water - mass_solute (k_f/M_s)/(T_m - T_k))*LCS_i` per node: the hand model's
+masked ice mass IS the generated `m_ice` (masks as numbers; in this place the source builds them with
+`np.where(T_k < T_eq_l, 1, 0)` / `np.where(LCS_i, 0, 1)`, which the hand model spells `maskNum`) -/
+theorem m_ice (p : SnowIn α) (t : α) :
+    (zero * maskNum (!decide (t < p.T_eq_l)) + iceMassEq p t * maskNum (decide (t < p.T_eq_l)) : α) =
+      F1D.m_ice (LCS_i_r := maskNum (!decide (t < p.T_eq_l))) (mass_water := p.const.mass_water)
+        (mass_solute := p.const.mass_solute) (k_f := p.const.k_f) (M_s := p.const.M_s) (T_m := p.T_m) (T_k := t)
+        (LCS_i := maskNum (decide (t < p.T_eq_l))) := rfl
+
+/-- `w_i_k = m_ice / mass` per node, `m_ice` the generated formula -/
 theorem w_i_k (p : SnowIn α) (g : Grid1D α) (stride iEnd : Nat) (tNuc : α) (i : Nat) (s : Solid1D α)
     (Tshelf : α) :
     (solidStep1D p g stride iEnd tNuc i s Tshelf).w =
       ((solidStep1D p g stride iEnd tNuc i s Tshelf).T.map fun t =>
-        let l : α := maskNum (decide (t < p.T_eq_l))
-        let r : α := maskNum (!decide (t < p.T_eq_l))
-        zero * r + iceMassEq p t * l).map fun m => F1D.w_i_k (m_ice := m) (mass := p.const.mass) := rfl
+        F1D.m_ice (LCS_i_r := maskNum (!decide (t < p.T_eq_l))) (mass_water := p.const.mass_water)
+          (mass_solute := p.const.mass_solute) (k_f := p.const.k_f) (M_s := p.const.M_s) (T_m := p.T_m) (T_k := t)
+          (LCS_i := maskNum (decide (t < p.T_eq_l)))).map fun m =>
+        F1D.w_i_k (m_ice := m) (mass := p.const.mass) := rfl
 
 end Snow.GenTie.S1D
